@@ -149,6 +149,7 @@ func gen(t *rapid.T) Case {
 	c := Case{}
 	c.IDP = idpkit.IDPConf{
 		Base:          rapid.SampledFrom([]string{"https://idp.example.com", "https://idp.example.com:8443/auth"}).Draw(t, "base"),
+		MetaSuffix:    rapid.SampledFrom([]string{"", "", "", "?tenant=acme", "?a=1&b=2", "#idp", "?t=1#x"}).Draw(t, "metasuffix"),
 		Signer:        rapid.Bool().Draw(t, "signer"),
 		SigMethod:     rapid.SampledFrom(idpkit.RSAMethods).Draw(t, "sigmethod"),
 		Intermediates: rapid.SampledFrom([]int{0, 0, 1}).Draw(t, "intermediates"),
